@@ -434,6 +434,8 @@ package table
 //@   requires forall k int :: 0 <= k && k < len(path.GetExtCommunities()) ==> path.GetExtCommunities()[k] != nil
 //@   claims at-return step post
 //@   at-return requires ret0 ==> isTransitiveType(x) && err == nil && found
+// "false only after every community failed that test": the scan is never cut short
+//@   at-return requires !ret0 ==> __iter + 1 >= len(extComms)
 //@   loop 0 step !(isTransitiveType(x) && err == nil && found)
 //@ func (*RouteTargetMembershipHandler).HasDefaultRouteTarget
 //@   pure
